@@ -258,3 +258,303 @@ REG.by_key[CW + '_recover_dual_values'].no_runtime = 'operates on cvxpy solver o
 REG.by_key[WR + 'assign_dual_values'].no_runtime = 'calls the solver-specific _recover_dual_values; covered by the bounded solve harness (C01)'
 # ground values of the spec function on the concrete argument (closed form j*n - j(j-1)/2), used only by the run-time harness
 REG.by_key[MW + '_get_Gram_from_mosek'].runtime_facts = lambda av: [off(av['size'], j) == j * av['size'] - j * (j - 1) // 2 for j in range(av['size'] + 1)]
+
+
+# ==================================================================================================================
+# CvxpyWrapper: what is sent (C05) and the tracking structure WF(w) that dual recovery relies on (C01)
+from pyvc import cvxmodel as cm
+from pyvc.cvxmodel import TExpr, KIND
+from .translations import tr_requires, ecoeff
+from . import translations as _tr   # noqa
+
+sx.FIELD_TYPES.update({'CvxpyWrapper.F': TOpt(TRef('CvxVar')), 'CvxpyWrapper.G': TOpt(TRef('CvxVar')), 'Wrapper.verbose': TInt})
+ET, CT, MT = TRef('Expression'), TRef('Constraint'), TRef('PSDMatrix')
+
+
+def cf(S, name, r):
+    return S.A('f:CvxCons.' + name)[r]
+
+
+def denotes(S0, Fw, Gw, c, e):
+    """the affine function c + <F, Fw> + <G, Gw> is the one denoted by expression e (same statement as the dense translation)"""
+    NE, NP = S0.g('Expression.counter'), S0.g('Point.counter')
+    i, j = fresh('i', I), fresh('j', I)
+    return z3.And(
+        z3.ForAll([i], z3.Implies(z3.And(i >= 0, i < NE), Fw[i] == ecoeff(S0, e, leafE(S0, i)))),
+        z3.ForAll([i, j], z3.Implies(z3.And(i >= 0, i < NP, j >= 0, j < NP),
+                                     2 * Gw[i, j] == ecoeff(S0, e, Tup(leafP(S0, i), leafP(S0, j))) + ecoeff(S0, e, Tup(leafP(S0, j), leafP(S0, i))))),
+        c == ecoeff(S0, e, One))
+
+
+def main_vars(S, w):
+    return z3.And(z3.Not(S.fld_none('CvxpyWrapper', 'F', w)), z3.Not(S.fld_none('CvxpyWrapper', 'G', w)))
+
+
+contract(
+    CW + '_expression_to_solver', [('self', WT), ('expression', ET)], returns=TExpr,
+    requires=lambda S, a: tr_requires(S, a) + [('main_variables_set', main_vars(S, a['self'].t))],
+    ensures=lambda S0, S, a, res: [
+        ('over_main_variables', z3.And(res.items[0] == S0.fld('CvxpyWrapper', 'F', a['self'].t), res.items[1] == S0.fld('CvxpyWrapper', 'G', a['self'].t)), 'property'),
+        ('denotes_the_expression', denotes(S0, res.items[2], res.items[3], res.items[4], a['expression'].t), 'property')],
+    pure=True,
+)
+
+SENSE_EQ, SENSE_INEQ = sx.str_code('equality'), sx.str_code('inequality')
+
+
+def send_requires(S, a):
+    w, c = a['self'].t, a['constraint'].t
+    e = S.fld('Constraint', 'expression', c)
+    T = S.fld('Wrapper', '_list_of_constraints_sent_to_solver', w)
+    Sl = S.fld('CvxpyWrapper', '_list_of_solver_constraints', w)
+    return tr_requires(S, {'expression': sx.V(ET, e)}) + [('main_variables_set', main_vars(S, w)), ('lists_distinct', z3.And(
+        T != Sl, T != S.g('Point.list_of_leaf_points'), T != S.g('Expression.list_of_leaf_expressions'),
+        Sl != S.g('Point.list_of_leaf_points'), Sl != S.g('Expression.list_of_leaf_expressions')))]
+
+
+def send_ens(S0, S, a, res):
+    w, c = a['self'].t, a['constraint'].t
+    e = S0.fld('Constraint', 'expression', c)
+    T = S0.fld('Wrapper', '_list_of_constraints_sent_to_solver', w)
+    Sl = S0.fld('CvxpyWrapper', '_list_of_solver_constraints', w)
+    k = S.elt(Sl, S0.len(Sl))
+    sense = S0.fld('Constraint', 'equality_or_inequality', c)
+    return [('tracked_once', appended_list(S0, S, T, c), 'property'),
+            ('one_solver_row', z3.And(appended_list(S0, S, Sl, k), k >= S0.alloc, S.cls(k) == tag('CvxCons')), 'property'),
+            ('sense', cf(S, 'ck', k) == z3.If(sense == SENSE_INEQ, KIND['le0'], KIND['eq0']), 'property'),
+            ('row_denotes_the_expression', z3.And(cf(S, 'cF', k) == S0.fld('CvxpyWrapper', 'F', w), cf(S, 'cG', k) == S0.fld('CvxpyWrapper', 'G', w),
+                                                  denotes(S0, cf(S, 'cFw', k), cf(S, 'cGw', k), cf(S, 'cc', k), e)), 'property')]
+
+
+def appended_list(S0, S, L, x):
+    i = fresh('i', I)
+    return z3.And(S.len(L) == S0.len(L) + 1, S.elt(L, S0.len(L)) == x,
+                  z3.ForAll([i], z3.Implies(z3.And(i >= 0, i < S0.len(L)), S.elt(L, i) == S0.elt(L, i))))
+
+
+CONS_FIELDS = ['f:CvxCons.' + n for n in ('ck', 'cvar', 'cF', 'cG', 'cFw', 'cGw', 'cc', 'ci', 'cj', 'crhs')]
+
+contract(
+    CW + 'send_constraint_to_solver', [('self', WT), ('constraint', CT)], returns=TNone,
+    requires=send_requires, ensures=send_ens,
+    raises=[('ValueError', lambda S, a: z3.And(S.fld('Constraint', 'equality_or_inequality', a['constraint'].t) != SENSE_EQ,
+                                               S.fld('Constraint', 'equality_or_inequality', a['constraint'].t) != SENSE_INEQ))],
+    modifies=lambda S, a: (lambda T, Sl: {'len': lambda r: z3.Or(r == T, r == Sl), 'eltI': lambda r: z3.Or(r == T, r == Sl)})(
+        S.fld('Wrapper', '_list_of_constraints_sent_to_solver', a['self'].t), S.fld('CvxpyWrapper', '_list_of_solver_constraints', a['self'].t)),
+    touches=lambda S, a: ['len', 'eltI', 'cls'] + CONS_FIELDS,
+    array_sorts={'f:CvxCons.cFw': z3.ArraySort(I, IA_R), 'f:CvxCons.cGw': z3.ArraySort(I, cm.A2)},
+)
+REG.by_key[CW + '_expression_to_solver'].no_runtime = 'returns a cvxpy expression; covered by the bounded solve harness (C05 row.data)'
+REG.by_key[CW + 'send_constraint_to_solver'].no_runtime = 'builds cvxpy objects; covered by the bounded solve harness (C05 row.data)'
+
+
+# ------------------------------------------------------------------------------------------- LMIs
+mentry = z3.Function('mentry', I, I, I, I)          # mentry(psd, i, j): the Expression object stored at entry (i, j) of a PSDMatrix
+PM = 'PEPit/psd_matrix.py::PSDMatrix.'
+
+contract(PM + '__getitem__', [('self', MT), ('item', TTuple(TInt, TInt))], returns=ET,
+         requires=lambda S, a: [('in_range', z3.And(a['item'].items[0].t >= 0, a['item'].items[0].t < sh0(S, a['self'].t),
+                                                    a['item'].items[1].t >= 0, a['item'].items[1].t < sh1(S, a['self'].t)))],
+         ensures=lambda S0, S, a, res: [('entry', res.t == mentry(a['self'].t, a['item'].items[0].t, a['item'].items[1].t), 'property')],
+         assumed=True, pure=True, note='numpy object-array indexing: matrix_of_expressions[i, j] is the stored entry (assumed external contract); '
+                            'negative indices are outside the precondition')
+
+
+def entries_ok(S, m):
+    """every entry of the PSDMatrix is an allocated, well-formed Expression (what the translations need)"""
+    i, j = fresh('i', I), fresh('j', I)
+    e = mentry(m, i, j)
+    return z3.ForAll([i, j], z3.Implies(z3.And(i >= 0, i < sh0(S, m), j >= 0, j < sh1(S, m)), z3.And(
+        e >= 0, e < S.alloc, S.cls(e) == tag('Expression'), wf_expr(S, e),
+        z3.Implies(S.fld('Expression', '_is_leaf', e), leaf_dict(S, 'Expression', e)))), patterns=[mentry(m, i, j)])
+
+
+def lmi_requires(S, a):
+    w, m = a['self'].t, a['psd_matrix'].t
+    T = S.fld('Wrapper', '_list_of_constraints_sent_to_solver', w)
+    Sl = S.fld('CvxpyWrapper', '_list_of_solver_constraints', w)
+    regs = [S.g('Point.list_of_leaf_points'), S.g('Expression.list_of_leaf_expressions')]
+    return [('shape', z3.And(sh0(S, m) >= 0, sh1(S, m) >= 0)), ('entries', entries_ok(S, m)), ('reg_expr', Reg(S, 'Expression')), ('reg_point', Reg(S, 'Point')),
+            ('main_variables_set', main_vars(S, w)),
+            ('lists_distinct', z3.And(T != Sl, *[z3.And(T != r, Sl != r) for r in regs]))]
+
+
+def lmi_rows(S0, H, L, base, count, m, w, M):
+    """rows base+1 .. base+count-1 of list L are the entry couplings  M[ci, cj] == aff(entry(ci, cj)),  stored row-major"""
+    t = fresh('t', I)
+    k = H.elt(L, base + t)
+    n1 = sh1(S0, m)
+    return z3.ForAll([t], z3.Implies(z3.And(t >= 1, t < count), z3.And(
+        k >= S0.alloc, k < H.alloc, H.cls(k) == tag('CvxCons'), cf(H, 'ck', k) == KIND['entry'], cf(H, 'cvar', k) == M,
+        cf(H, 'ci', k) >= 0, cf(H, 'cj', k) >= 0, cf(H, 'cj', k) < n1, t == 1 + cf(H, 'ci', k) * n1 + cf(H, 'cj', k),
+        cf(H, 'cF', k) == S0.fld('CvxpyWrapper', 'F', w), cf(H, 'cG', k) == S0.fld('CvxpyWrapper', 'G', w),
+        denotes(S0, cf(H, 'cFw', k), cf(H, 'cGw', k), cf(H, 'cc', k), mentry(m, cf(H, 'ci', k), cf(H, 'cj', k))))))
+
+
+def lmi_head(S0, H, L, base, m):
+    k = H.elt(L, base)
+    M = cf(H, 'cvar', k)
+    return z3.And(k >= S0.alloc, k < H.alloc, H.cls(k) == tag('CvxCons'), cf(H, 'ck', k) == KIND['psd'], M >= S0.alloc, M < H.alloc, H.cls(M) == tag('CvxVar'),
+                  sh0(H, M) == sh0(S0, m), sh1(H, M) == sh1(S0, m), H.A('f:CvxVar.symmetric', z3.ArraySort(I, B))[M])
+
+
+def lmi_ens(S0, S, a, res):
+    w, m = a['self'].t, a['psd_matrix'].t
+    T = S0.fld('Wrapper', '_list_of_constraints_sent_to_solver', w)
+    Sl = S0.fld('CvxpyWrapper', '_list_of_solver_constraints', w)
+    n = S0.len(Sl)
+    cnt = 1 + sh0(S0, m) * sh1(S0, m)
+    i = fresh('i', I)
+    M = cf(S, 'cvar', S.elt(Sl, n))
+    return [('tracked_once', appended_list(S0, S, T, m), 'property'),
+            ('solver_rows', z3.And(S.len(Sl) == n + cnt, z3.ForAll([i], z3.Implies(z3.And(i >= 0, i < n), S.elt(Sl, i) == S0.elt(Sl, i)))), 'property'),
+            ('psd_variable', lmi_head(S0, S, Sl, n, m), 'property'),
+            ('entry_couplings', lmi_rows(S0, S, Sl, n, cnt, m, w, M), 'property')]
+
+
+def lmi_outer(L):
+    S0, H = L.H0, L.H
+    w, m = L.args['self'].t, L.args['psd_matrix'].t
+    loc = L.var('cvxpy_constraints_list', 1).t
+    M = L.var('M', 0).t
+    n1 = sh1(S0, m)
+    r = fresh('r', I)
+    return [('local', z3.And(loc >= S0.alloc, loc < H.alloc, H.cls(loc) == tag('list'), M >= S0.alloc, M < H.alloc)),
+            ('only_solver_objects_allocated', z3.ForAll([r], z3.Implies(z3.And(r >= S0.alloc, r < H.alloc),
+                                                                       z3.Or(H.cls(r) == tag('CvxCons'), H.cls(r) == tag('CvxVar'), H.cls(r) == tag('list'))))),
+            ('count', z3.And(H.len(loc) == 1 + L.i * n1, L.i * n1 >= 0, n1 >= 0)),
+            ('head', z3.And(lmi_head(S0, H, loc, 0, m), cf(H, 'cvar', H.elt(loc, 0)) == M)),
+            ('rows', lmi_rows(S0, H, loc, 0, H.len(loc), m, w, M)),
+            ('wrapper_untouched', z3.And(H.fld('CvxpyWrapper', 'F', w) == S0.fld('CvxpyWrapper', 'F', w), H.fld('CvxpyWrapper', 'G', w) == S0.fld('CvxpyWrapper', 'G', w),
+                                         H.fld_none('CvxpyWrapper', 'F', w) == S0.fld_none('CvxpyWrapper', 'F', w), H.fld_none('CvxpyWrapper', 'G', w) == S0.fld_none('CvxpyWrapper', 'G', w)))]
+
+
+def lmi_inner(L):
+    S0, H = L.H0, L.H
+    m = L.args['psd_matrix'].t
+    out = lmi_outer(L)
+    i = L.outer(1)['i']
+    out[2] = ('count', z3.And(H.len(L.var('cvxpy_constraints_list', 1).t) == 1 + i * sh1(S0, m) + L.i, i * sh1(S0, m) >= 0, sh1(S0, m) >= 0))
+    return out
+
+
+LMI_LOCAL = lambda L: {'len': lambda r: r == L.var('cvxpy_constraints_list', 1).t, 'eltI': lambda r: r == L.var('cvxpy_constraints_list', 1).t}
+
+contract(
+    CW + 'send_lmi_constraint_to_solver', [('self', WT), ('psd_counter', TInt), ('psd_matrix', MT)], returns=TNone,
+    requires=lmi_requires, ensures=lmi_ens,
+    modifies=lambda S, a: (lambda T, Sl: {'len': lambda r: z3.Or(r == T, r == Sl), 'eltI': lambda r: z3.Or(r == T, r == Sl)})(
+        S.fld('Wrapper', '_list_of_constraints_sent_to_solver', a['self'].t), S.fld('CvxpyWrapper', '_list_of_solver_constraints', a['self'].t)),
+    touches=lambda S, a: ['len', 'eltI', 'cls', 'f:shape0', 'f:shape1', 'f:CvxVar.symmetric'] + CONS_FIELDS,
+    array_sorts={'f:CvxCons.cFw': z3.ArraySort(I, IA_R), 'f:CvxCons.cGw': z3.ArraySort(I, cm.A2), 'f:CvxVar.symmetric': z3.ArraySort(I, B)},
+    loops={1: dict(inv=lmi_outer, mods=LMI_LOCAL), 2: dict(inv=lmi_inner, mods=LMI_LOCAL)},
+)
+REG.by_key[CW + 'send_lmi_constraint_to_solver'].no_runtime = 'builds cvxpy objects; covered by the bounded solve harness (C05 lmi.entry / lmi.entries)'
+
+
+# ------------------------------------------------------------------------------------------- main variables, problem, heuristic
+sx.FIELD_TYPES.update({'Wrapper.objective': TOpt(TRef('CvxExprObj'))})
+
+
+def ef(S, name, r):
+    return S.A('f:CvxExprObj.' + name)[r]
+
+
+def smv_ens(S0, S, a, res):
+    w = a['self'].t
+    Sl = S0.fld('CvxpyWrapper', '_list_of_solver_constraints', w)
+    F, G = S.fld('CvxpyWrapper', 'F', w), S.fld('CvxpyWrapper', 'G', w)
+    k = S.elt(Sl, S0.len(Sl))
+    return [('F', z3.And(z3.Not(S.fld_none('CvxpyWrapper', 'F', w)), F >= S0.alloc, S.cls(F) == tag('CvxVar'), sh0(S, F) == S0.g('Expression.counter')), 'property'),
+            ('G', z3.And(z3.Not(S.fld_none('CvxpyWrapper', 'G', w)), G >= S0.alloc, S.cls(G) == tag('CvxVar'), F != G, sh0(S, G) == S0.g('Point.counter'),
+                         sh1(S, G) == S0.g('Point.counter'), S.A('f:CvxVar.symmetric', z3.ArraySort(I, B))[G]), 'property'),
+            ('gram_is_psd', z3.And(appended_list(S0, S, Sl, k), k >= S0.alloc, S.cls(k) == tag('CvxCons'), cf(S, 'ck', k) == KIND['psd'], cf(S, 'cvar', k) == G), 'property')]
+
+
+contract(
+    CW + 'set_main_variables', [('self', WT)], returns=TNone, ensures=smv_ens,
+    requires=lambda S, a: [('counters', z3.And(S.g('Expression.counter') >= 0, S.g('Point.counter') >= 0))],
+    modifies=lambda S, a: {'len': lambda r: r == S.fld('CvxpyWrapper', '_list_of_solver_constraints', a['self'].t),
+                           'eltI': lambda r: r == S.fld('CvxpyWrapper', '_list_of_solver_constraints', a['self'].t),
+                           'f:CvxpyWrapper.F': lambda r: r == a['self'].t, 'f:CvxpyWrapper.F?none': lambda r: r == a['self'].t,
+                           'f:CvxpyWrapper.G': lambda r: r == a['self'].t, 'f:CvxpyWrapper.G?none': lambda r: r == a['self'].t},
+)
+
+
+def ph_ens(S0, S, a, res):
+    """prepare_heuristic: exactly one more solver constraint,  objective >= wc_value - tol  (ABSOLUTE tolerance), tracked by nobody"""
+    w = a['self'].t
+    Sl = S0.fld('CvxpyWrapper', '_list_of_solver_constraints', w)
+    T = S0.fld('Wrapper', '_list_of_constraints_sent_to_solver', w)
+    o = S0.fld('Wrapper', 'objective', w)
+    k = S.elt(Sl, S0.len(Sl))
+    return [('one_more_row', z3.And(appended_list(S0, S, Sl, k), k >= S0.alloc, S.cls(k) == tag('CvxCons')), 'property'),
+            ('objective_not_below_optimum_minus_tolerance', z3.And(
+                cf(S, 'ck', k) == KIND['ge'], cf(S, 'crhs', k) == a['wc_value'].t - a['tol_dimension_reduction'].t,
+                cf(S, 'cF', k) == ef(S0, 'cF', o), cf(S, 'cG', k) == ef(S0, 'cG', o), cf(S, 'cFw', k) == ef(S0, 'cFw', o),
+                cf(S, 'cGw', k) == ef(S0, 'cGw', o), cf(S, 'cc', k) == ef(S0, 'cc', o)), 'property'),
+            ('untracked', z3.And(S.len(T) == S0.len(T), S.A('eltI')[T] == S0.A('eltI')[T]), 'property')]
+
+
+contract(
+    CW + 'prepare_heuristic', [('self', WT), ('wc_value', Scalar), ('tol_dimension_reduction', Scalar)], returns=TNone, ensures=ph_ens,
+    requires=lambda S, a: [('objective_set', z3.Not(S.fld_none('Wrapper', 'objective', a['self'].t))),
+                           ('lists_distinct', S.fld('Wrapper', '_list_of_constraints_sent_to_solver', a['self'].t) != S.fld('CvxpyWrapper', '_list_of_solver_constraints', a['self'].t))],
+    modifies=lambda S, a: {'len': lambda r: r == S.fld('CvxpyWrapper', '_list_of_solver_constraints', a['self'].t),
+                           'eltI': lambda r: r == S.fld('CvxpyWrapper', '_list_of_solver_constraints', a['self'].t)},
+)
+
+from pyvc.symex import TArr2 as _TA2
+
+
+def prob_ok(S0, S, w, sense):
+    p = S.fld('Wrapper', 'prob', w)
+    Sl = S0.fld('CvxpyWrapper', '_list_of_solver_constraints', w)
+    Pc = S.A('f:CvxProb.constraints', IA_I)[p]
+    ob = S.A('f:CvxProb.objective', IA_I)[p]
+    i = fresh('i', I)
+    return p, ob, z3.And(p >= S0.alloc, S.cls(p) == tag('CvxProb'), S.len(Pc) == S0.len(Sl),
+                         z3.ForAll([i], z3.Implies(z3.And(i >= 0, i < S0.len(Sl)), S.elt(Pc, i) == S0.elt(Sl, i))),
+                         S.A('f:CvxObjective.sense', IA_I)[ob] == sense)
+
+
+def heur_ens(S0, S, a, res):
+    w = a['self'].t
+    p, ob, ok = prob_ok(S0, S, w, -1)
+    ex = S.A('f:CvxObjective.expr', IA_I)[ob]
+    i, j = fresh('i', I), fresh('j', I)
+    return [('same_constraints_minimise', ok, 'property'),
+            ('objective_is_weighted_gram', z3.And(ef(S, 'cG', ex) == S0.fld('CvxpyWrapper', 'G', w), ef(S, 'cc', ex) == 0,
+                                                  z3.ForAll([i], ef(S, 'cFw', ex)[i] == 0),
+                                                  z3.ForAll([i, j], ef(S, 'cGw', ex)[i, j] == a['weight'].t[i, j])), 'property')]
+
+
+contract(
+    CW + 'heuristic', [('self', WT), ('weight', _TA2)], returns=TRef('CvxProb'), ensures=heur_ens,
+    requires=lambda S, a: [('main_variables_set', main_vars(S, a['self'].t))],
+    modifies=lambda S, a: {'f:Wrapper.prob': lambda r: r == a['self'].t},
+)
+
+
+def gp_ens(S0, S, a, res):
+    w = a['self'].t
+    p, ob, ok = prob_ok(S0, S, w, 1)
+    ex = S.A('f:CvxObjective.expr', IA_I)[ob]
+    so = S.fld('Wrapper', 'objective', w)
+    return [('same_constraints_maximise', ok, 'property'),
+            ('objective_denotes_the_objective_expression', z3.And(
+                ef(S, 'cF', ex) == S0.fld('CvxpyWrapper', 'F', w), ef(S, 'cG', ex) == S0.fld('CvxpyWrapper', 'G', w),
+                denotes(S0, ef(S, 'cFw', ex), ef(S, 'cGw', ex), ef(S, 'cc', ex), a['objective'].t)), 'property'),
+            ('objective_kept_for_the_heuristic', z3.And(z3.Not(S.fld_none('Wrapper', 'objective', w)), ef(S, 'cFw', so) == ef(S, 'cFw', ex),
+                                                        ef(S, 'cGw', so) == ef(S, 'cGw', ex), ef(S, 'cc', so) == ef(S, 'cc', ex),
+                                                        ef(S, 'cF', so) == ef(S, 'cF', ex), ef(S, 'cG', so) == ef(S, 'cG', ex)), 'aux')]
+
+
+contract(
+    CW + 'generate_problem', [('self', WT), ('objective', ET)], returns=TRef('CvxProb'), ensures=gp_ens,
+    requires=lambda S, a: tr_requires(S, {'expression': a['objective']}) + [('main_variables_set', main_vars(S, a['self'].t))],
+    modifies=lambda S, a: {'f:Wrapper.prob': lambda r: r == a['self'].t, 'f:Wrapper.objective': lambda r: r == a['self'].t,
+                           'f:Wrapper.objective?none': lambda r: r == a['self'].t},
+)
+for _k in ('set_main_variables', 'prepare_heuristic', 'heuristic', 'generate_problem'):
+    REG.by_key[CW + _k].no_runtime = 'builds cvxpy objects; covered by the bounded solve harness'
